@@ -159,6 +159,11 @@ def asg_structural_contracts():
                 fs[mm.group(1)] = mm.group(2)
         fields[m.group(1)] = fs
     out = {}
+    # variants of `Stmt` by payload type: `X::to_stmt(self) -> Stmt` must wrap `self` in the variant that holds an X
+    it_s = rf.find_block_item('enum', 'Stmt')
+    variants = {}
+    for vm in re.finditer(r'(?m)^\s*(\w+)\((Box<)?(\w+)>?\),', rf.src[it_s['header_start']:it_s['end']]):
+        variants.setdefault(vm.group(3), []).append((vm.group(1), bool(vm.group(2))))
     for ty, fs in fields.items():
         for blk in rf.find_all_impls(re.escape(ty)):
             d1 = rf.depth[blk['body_open']] + 1
@@ -175,6 +180,9 @@ def asg_structural_contracts():
                     ens = ['r.%s == %s' % (n, n) for n in names if n in fs]
                     if ens and len(ens) == len(names):
                         out[q] = dict(ret='r', props=['C06', 'C08', 'C09'], spec='ensures ' + ', '.join(ens) + ',                     //@C06:constructor-keeps-fields')
+                elif fn == 'to_stmt' and re.search(r'\(\s*self\s*\)\s*->\s*Stmt\s*$', sig) and len(variants.get(ty, [])) == 1:
+                    vn, boxed = variants[ty][0]
+                    out[q] = dict(ret='r', props=['C06', 'C08', 'C09'], spec='ensures r == Stmt::%s(%s),                             //@C06:statement-kind' % (vn, 'Box::new(self)' if boxed else 'self'))
                 elif fn in fs:
                     am = re.search(r'\(\s*&self\s*\)\s*->\s*&\s*([\w:<>\[\] ,]+)$', sig)
                     if am and not am.group(1).startswith('[') and am.group(1) != 'str' and normalise_code(am.group(1)) == normalise_code(fs[fn]):
@@ -422,8 +430,17 @@ pub assume_specification<T: Clone, EE: Clone> [<Result<T, EE> as Clone>::clone] 
     zov['bind_typed_parameter_list'].update(ret='r', props=['C09', 'C07', 'C03'], loops={1: ITER('oq3_it1', '\n    oq3_v1@.len() + oq3_it1.rest().len() == param_list.sp_typed_params().len(),')},
         spec='ensures grows(*old(context), *final(context)), (r is Some) == (inparam_list is Some), r is Some ==> r->Some_0@.len() == inparam_list->Some_0.sp_typed_params().len(),     //@C09:one-symbol-per-parameter')
     zov['stmt_to_asg_stmt'].update(ret='r', props=P, loops={1: ITER_NB('oq3_it1')},
-        spec='requires stmt is Include ==> !old(context).global(),      // the `unreachable!` of the Include arm\nensures grows(*old(context), *final(context)),')
-    zov['expr_stmt_to_asg_stmt'].update(ret='r', props=P, loops={1: ITER_NB('oq3_it1')})
+        spec='''requires stmt is Include ==> !old(context).global(),      // the `unreachable!` of the Include arm
+ensures grows(*old(context), *final(context)),
+    stmt_kind_ok(stmt, r),                                                                  //@C06,C03:statement-kind
+    // unsupported statement kinds are reported, not dropped silently
+    unsupported_stmt(stmt) ==> final(context).errs() == old(context).errs().push(SemanticErrorKind::NotImplementedError),     //@C03:unsupported-statement-reported''')
+    zov['expr_stmt_to_asg_stmt'].update(ret='r', props=['C03', 'C06', 'C07', 'C13'], loops={1: ITER_NB('oq3_it1', '''
+    oq3_v1@.len() + oq3_it1.rest().len() == mod_gate_call.sp_modifiers().len(),
+    oq3_it1.rest() =~= mod_gate_call.sp_modifiers().skip(oq3_v1@.len() as int),
+    forall|i: int| 0 <= i < oq3_v1@.len() ==> mod_same(#[trigger] mod_gate_call.sp_modifiers()[i], oq3_v1@[i]),''')},
+        spec='''ensures grows(*old(context), *final(context)),
+    expr_stmt_ok(expr_stmt.sp_expr(), r),                                               //@C06:gate-call-kind-and-modifier-order''')
     zov['stmt_to_asg_stmt']['with_scope'] = open(os.path.join(REPO, CTX)).read()
     A_ = lambda pred, label, tg='C07': 'proof { assert(%s(*old(context), *context)); }     //@%s:%s' % (pred, tg, label)
     zov['stmt_to_asg_stmt']['ghost'] = [
@@ -601,6 +618,8 @@ ensures
 '''))
     zov.setdefault('literal_to_asg_texpr', {}).update(dict(ret='res', spec='ensures res is Some,'))
     zov.setdefault('paren_expr_to_asg_texpr', {}).update(dict(ret='res', spec='ensures res is Some, grows(*old(context), *final(context)),'))
+    zov.setdefault('io_declaration_statement_to_asg_stmt', {}).update(dict(ret='r', props=['C06', 'C09', 'C03'], spec='''ensures grows(*old(context), *final(context)),
+    if type_decl.sp_input_token() is Some { r is InputDeclaration } else { r is OutputDeclaration },          //@C06:statement-kind'''))
     for fn in ['range_expression_to_asg_type', 'set_expression_to_asg_type', 'index_operator_to_asg_type', 'expression_list_to_asg_type', 'call_expr_to_asg_texpr', 'param_type_to_type', 'io_declaration_statement_to_asg_stmt']:
         zov.setdefault(fn, {}).setdefault('spec', 'ensures grows(*old(context), *final(context)),')
     zov.setdefault('expr_to_asg_texpr', {})['ghost'] = list(zov.get('expr_to_asg_texpr', {}).get('ghost', [])) + [
